@@ -661,7 +661,7 @@ def run(ctx):
     rng = ctx.rng
     explore(ctx, corpus_cases(), label="corpus: ")
     explore(ctx, list(exhaustive_cases(5 if ctx.thorough() else 4)), label="exhaustive: ")
-    n = 60000 if ctx.thorough() else 6000
+    n = 300000 if ctx.thorough() else 30000
     cases = [gen_case(rng) for _ in range(n)]
     for i in range(0, n, 5000):
         explore(ctx, cases[i:i + 5000])
